@@ -30,7 +30,7 @@ def sh(cmd, cwd=None, env=None, timeout=1800):
 
 
 def suite(wt):
-    rc, out = sh("%s -m pytest -q -p no:cacheprovider --timeout=900 2>&1 | tail -8" % PY,
+    rc, out = sh("%s -m pytest -q -p no:cacheprovider --timeout=900 2>&1 | grep -E '^FAILED | passed'" % PY,
                  cwd=wt, env={"PYTHONPATH": wt + "/src"})
     m = re.search(r"(\d+) failed, (\d+) passed", out)
     failed = sorted(re.findall(r"FAILED (\S+)", out))
